@@ -288,7 +288,7 @@ pub enum Op {
     EgVerifyRaw,       // [pk, generator(empty = default), c1, c2, mp, bp, ch] -> []   trait-level BlsElGamal::verify_proof
     CoreSign,          // [sk, msg, dst] -> [sig point]      trait-level BlsSignatureCore::core_sign with a caller-supplied tag
     CoreVerify,        // [pk, sig point, msg, dst] -> []    trait-level BlsSignatureCore::core_verify
-    AggVerifyTrait,    // [iterator kind(1): 0 vec / 1 filter / 2 from_fn / 3 chain / 4 flat_map, aggsig, (pk, msg)...] -> []  the scheme traits' aggregate_verify with iterators whose size_hint differs
+    AggVerifyTrait,    // [iterator kind(1): 0 vec / 1 filter / 2 from_fn / 3 chain / 4 flat_map / 5 not fused: first half, None, second half / 6 not fused: all, None, all again, aggsig, (pk, msg)...] -> []  the scheme traits' aggregate_verify with iterators whose size_hint differs
     VerifyUnchecked,   // [kind(1): 0 Signature / 1 MultiSignature vs MultiPublicKey / 2 ProofOfPossession, sig (tag+point, or bare point for 2), pk point, msg] -> []  values built through the PUBLIC enum / tuple constructors from on-curve points WITHOUT the subgroup check
     MsgGenerator,      // [] -> [point]
     Dsts,              // [] -> [basic, aug, pop_sig, pop_pop, elgamal_enc]
@@ -310,10 +310,12 @@ pub enum Op {
     EgSealRaw,         // [pk, msk, generator (point of the key group)] -> [c1, c2, message_proof, blinder_proof, challenge]   trait-level BlsElGamal::seal_scalar_with_proof with a caller-supplied generator
     ScShareOverBase,   // [base point (on the curve, NOT subgroup-checked: what the public fields of a ciphertext can hold), skshare] -> [dshare]   SignCryptCiphertext { u: base, .. }.create_decryption_share(share)
     PairingRaw,        // [(sig point, pk point) pairs, unchecked] -> [is_identity(product)(1), product over the first half + product over the second half == product over all (1)]   trait-level Pairing::pairing
-    EncodeInterrupted, // [ty, codec_in, bytes, fail_after(8)] -> [flag(1) = the sink failed]   serialize the value as JSON into a writer that fails after that many bytes (a full disk, a closed socket), and into the harness's own serializer failing after that many calls; the value's honest encodings are then taken again by the caller
+    EncodeInterrupted, // [ty, codec_in, bytes, fail_after(8), how(1, optional): 0 the sink returns an error / 1 the sink panics and the caller catches it] -> [flag(1) = the sink failed]   serialize the value as JSON into a writer that fails after that many bytes (a full disk, a closed socket), and into the harness's own serializer failing after that many calls; the value's honest encodings are then taken again by the caller
     PokCommitNestedAsRef, // [msg, sig] -> [outer commitment, outer secret, inner commitment, inner secret]   ProofCommitment::generate with a message value whose as_ref() runs another ProofCommitment::generate for the same inputs
     AggVerifyCallerPanics, // [aggsig, k(8), how(1): 0 iterator / 1 AsRef, (pk, msg)...] -> []  (always Rej)   the caller's own iterator (trait level) or message type (struct level) panics at entry k; the caller catches the unwind and goes on using the thread
-    SplitFaultyRng,    // [sk, t, n, seed32, k(8), fill(1)] -> [share..]   split_with_rng with a caller's generator whose k-th request is answered with a block of `fill` bytes (a transient fault of the entropy source), all others from the seeded stream
+    FromFickleList,    // [kind(1): 0 MultiSignature / 1 AggregateSignature, n1(8), sig...] -> [value]   from_signatures over a caller's container whose as_ref() returns the first n1 signatures on its 1st, 3rd, .. call and the remaining ones on its 2nd, 4th, .. call
+    FickleMessage,     // [which(1): 0 PublicKey::sign_crypt / 1 PublicKey::encrypt_time_lock / 2 the scheme trait's sign / 3 trait-level BlsSignCrypt::seal, key, scheme, view1, view2, id (time-lock only)] -> [artefact]   the message is a caller's value whose as_ref() shows view1 on its 1st, 3rd.. call and view2 on its 2nd, 4th.. call (a window over a buffer another component appends to)
+    SplitFaultyRng,    // [sk, t, n, seed32, k(8), fill(1), width(8, optional, default 1)] -> [share..]   split_with_rng with a caller's generator whose k-th .. (k+width-1)-th requests are answered with blocks of `fill` bytes (a transient fault of the entropy source), all others from the seeded stream
     MultiSigVerifyKeys, // [msig, msg, pk...] -> []   trait-level BlsSignaturePop::multi_sig_verify over the list of keys
 }
 
